@@ -1,0 +1,16 @@
+// SPDX-License-Identifier: GPL-3.0-or-later
+
+//go:build verif
+// +build verif
+
+package agent
+
+// VerifPointHook, if set, is called at named yield points (between a read and a write of shared state).
+// Only compiled with the "verif" build tag.
+var VerifPointHook func(point string, key string)
+
+func verifPoint(point string, key string) {
+	if h := VerifPointHook; h != nil {
+		h(point, key)
+	}
+}
